@@ -84,12 +84,24 @@ def draw_k(case):
     return 1 + (case["params"]["itersLimit"] + len(case.get("pre", []))) % 40
 
 
+def solve_counted(run, limit):
+    """run.solve(); the evaluation-count guard of the logging problem raises a BaseException of its own when the
+    objective is asked for more than limit + 3 values - if the code under test lets that through, it is the verdict."""
+    from vlib.objectives import ObjectiveFailure
+    try:
+        return run.solve()
+    except ObjectiveFailure:
+        if run.problem.runaway:
+            fail("Solve kept evaluating the objective beyond itersLimit+3 = %d evaluations" % (limit + 3))
+        raise
+
+
 def nonfinite_body(case):
     p = case["params"]
     run = Run(case["recipe"], p)
     run.line_guard = True
     run.problem.max_calls = p["itersLimit"] + 3
-    sol = run.solve()              # a call that never returns is reported by the line bound
+    sol = solve_counted(run, p["itersLimit"])     # a call that never returns is reported by the line bound
     if run.problem.runaway:
         fail("Solve kept evaluating the objective beyond itersLimit+3 = %d evaluations" % (p["itersLimit"] + 3))
     n = len(run.problem.log)       # evaluations with a finite value
@@ -132,15 +144,15 @@ def body(case):
         run.problem.max_calls = limit + 3 + nlocal
     if case.get("first_limit"):
         run.sp.itersLimit = case["first_limit"]
-        run.solve()
+        solve_counted(run, case["first_limit"])
         pre = len(run.problem.log)        # these trials are taken as given; an ordinary case judges a first Solve
         if pre > case["first_limit"]:
             fail("%d evaluations exceed itersLimit=%d" % (pre, case["first_limit"]))
         run.sp.itersLimit = limit
-    sol = run.solve()
+    sol = solve_counted(run, limit)
     for _ in range(case.get("again", 0)):
         before = len(run.problem.log)
-        sol = run.solve()
+        sol = solve_counted(run, limit)
         if len(run.problem.log) != before:
             fail("Solve called again on the finished solver made %d further evaluations (%d -> %d, itersLimit=%d)" %
                  (len(run.problem.log) - before, before, len(run.problem.log), limit))
